@@ -41,6 +41,30 @@ def doc_names():
     return out
 
 
+def doc_repository_files():
+    """documented name -> the repository file the same table row names for it (third column): the only statement in
+    the package about WHICH remote file a name stands for."""
+    from importlib import resources
+    out = {}
+    pkg = resources.files("traffic_weaver.datasets.data_description")
+    for entry in sorted(pkg.iterdir(), key=lambda e: e.name):
+        if not entry.name.endswith(".md"):
+            continue
+        for line in entry.read_text(encoding="utf-8").splitlines():
+            m = re.match(r"^\|\s*(\d+)\s*\|\s*([^|\s]+)\s*\|\s*([^|\s]+)\s*\|", line)
+            if m:
+                out[m.group(2)] = m.group(3)
+    return out
+
+
+def _file_key(s):
+    s = str(s).lower().replace("-", "_")
+    for ext in (".gz", ".csv"):
+        if s.endswith(ext):
+            s = s[:-len(ext)]
+    return s.lstrip("./")
+
+
 def is_bundled(name):
     return name.startswith("sandvine")
 
@@ -379,6 +403,16 @@ def run_static(params, st, keep_log=False):
                 res.violation = {"cls": f"C18/shared-{field}", "key": "names=" + "+".join(sorted((other, n))),
                                  "msg": f"datasets {other} and {n} share the same {field}: {val}"}
             seen[field].setdefault(val, n)
+        # its OWN file: the table row that documents the name also names the repository file; the loader must ask for
+        # that one (compared modulo '-'/'_' and extension, and as a suffix: the shipped sources carry typos such as
+        # 'aams-ix-isp_monthly...' and '..._daily-2024...' that do not change which file is meant)
+        doc_file = doc_repository_files().get(n)
+        if doc_file and res.violation is None:
+            a, b = _file_key(doc_file), _file_key(ds.remote_filename)
+            if not (a == b or a.endswith(b) or b.endswith(a)):
+                res.violation = {"cls": "C18/not-its-own-remote-file", "key": f"name={n}",
+                                 "msg": f"{n} is documented as repository file {doc_file!r}, but its loader downloads "
+                                        f"{ds.remote_filename!r} ({ds.url})"}
         n_pairs += 1
     res.stats["static:datasets-compared"] = n_pairs
     import hashlib
